@@ -23,9 +23,11 @@ HOOK_BY_CLASS = {"MSGSETCORE": "HAtLeastOne", "TAX1099MSGSETV1": "HAtLeastOne", 
                  "TAX1099MSGSRSV1": "HAtLeastOne", "MSGSETLIST": "HAtLeastOne", "OFX": "HOfx"}
 RENAME_BY_CLASS = {"MAIL": ("FROM", "FRM"), "MFINFO": ("YIELD", "YLD"), "STOCKINFO": ("YIELD", "YLD")}
 RENAMES = {  # (groom hash, ungroom hash) -> (wire tag, python tag)
-    ("9657e103a07d", "f4a5a61babcf"): ("FROM", "FRM"),
-    ("66d59c2e5fcf", "3c9351d2d1f9"): ("YIELD", "YLD"),
-    ("48e438021f50", "ed82740a2df6"): ("YIELD", "YLD"),
+    # groom bodies after "fix: groom renames every YIELD / FROM child" (findall: every child with the wire tag, as Model/Convert.v's
+    # groomed_tag now does); the first-child-only bodies are no longer recognised
+    ("daadf463b1d7", "f4a5a61babcf"): ("FROM", "FRM"),
+    ("fef33ad36095", "3c9351d2d1f9"): ("YIELD", "YLD"),
+    ("451a7170f739", "ed82740a2df6"): ("YIELD", "YLD"),
 }
 # overrides that do not influence construct / from_etree / to_etree (repr, read-only shortcut properties: C16 pins those itself)
 IGNORED_KINDS = ("property",)
